@@ -254,6 +254,29 @@ def is_func_lambda(func: FunctionType):
     return func.__code__.co_name == "<lambda>"
 
 
+def _get_lambda_text(atok, node):
+    """Return the text of lambda ``node`` as a self-contained expression
+
+    Line breaks allowed only by brackets enclosing the lambda
+    are replaced with backslash continuations (without comments).
+    """
+    text, depth, pos = "", 0, node.first_token.startpos
+    for t in atok.token_range(
+            node.first_token, node.last_token, include_extra=True):
+        if t.type == token.OP and t.string in "([{":
+            depth += 1
+        elif t.type == token.OP and t.string in ")]}":
+            depth -= 1
+        elif depth == 0 and t.type == token.COMMENT:
+            text += atok.text[pos:t.startpos].rstrip(" \t")
+            pos = t.endpos
+        elif depth == 0 and t.type == token.NL:
+            text += atok.text[pos:t.startpos] + " \\"
+            pos = t.startpos
+
+    return text + atok.text[pos:node.last_token.endpos]
+
+
 def extract_lambda_from_source(source: str):
 
     atok = asttokens.ASTTokens(source, parse=True)
@@ -262,7 +285,7 @@ def extract_lambda_from_source(source: str):
         if isinstance(node, ast.Lambda):
             break
 
-    return source[node.first_token.startpos:node.last_token.endpos]
+    return _get_lambda_text(atok, node)
 
 
 def extract_lambda_from_func(func: FunctionType):
@@ -281,8 +304,7 @@ def extract_lambda_from_func(func: FunctionType):
                    n.lineno == row + 1)     # row is 0-indexed
 
     if len(lambdas) == 1:
-        node = lambdas[0]
-        return src[node.first_token.startpos:node.last_token.endpos]
+        return _get_lambda_text(atok, lambdas[0])
 
     elif len(lambdas) > 0:
         raise ValueError("more than 1 lambda expressions found")
